@@ -46,13 +46,15 @@ def watchdog(seconds: float):
     def _h(signum, frame):
         raise CaseTimeout()
 
-    old = signal.signal(signal.SIGALRM, _h)
-    signal.setitimer(signal.ITIMER_REAL, seconds)
+    # CPU time of this process, not wall time: a case that is merely starved by other jobs on the machine must not look like a hang
+    # (a wall-clock budget hit is 'inconclusive', never a violation); a genuine endless loop burns CPU and is caught
+    old = signal.signal(signal.SIGVTALRM, _h)
+    signal.setitimer(signal.ITIMER_VIRTUAL, seconds)
     try:
         yield
     finally:
-        signal.setitimer(signal.ITIMER_REAL, 0)
-        signal.signal(signal.SIGALRM, old)
+        signal.setitimer(signal.ITIMER_VIRTUAL, 0)
+        signal.signal(signal.SIGVTALRM, old)
 
 
 def jdump(x) -> str:
@@ -97,7 +99,7 @@ class Sub:
     n = {"quick": 2000, "thorough": 50000}        # per backend, summed over shards
     shards = {"quick": 2, "thorough": 8}
     rule = ""
-    case_timeout = 20.0
+    case_timeout = 120.0      # CPU seconds per case (sweeping enum rows set more)
     distinct_by_construction = False
     steps = {"quick": 30, "thorough": 50}          # machines only
 
